@@ -570,20 +570,14 @@ func getAllContract(p *Prog, r *Report, getter, region, zero string) {
 	}
 	r.check(len(effs) == 1 && effs[0] == "ITER "+region, "getter-contract", "getter-contract/"+getter+"/region", c.pos(),
 		"iterates exactly "+region, fmt.Sprintf("%s effects: %v", getter, effs))
-	want := "phi(append(phi(@|nil),[decode(IT.Value())])|nil)"
+	want := "phi(append(@,[decode(IT.Value())])|nil)"
 	n := 0
-	for _, b := range fn.Blocks {
-		for _, in := range b.Instrs {
-			ret, ok := in.(*ssa.Return)
-			if !ok || len(ret.Results) != 1 {
-				continue
-			}
-			if b.Comment == "recover" {
-				continue
-			}
-			n++
-			c.teq("getter-contract", "list", c.term(ret.Results[0], ret), want, p.instrPos(ret))
+	for _, vr := range c.virtualReturns() {
+		if len(vr.vals) != 1 || vr.at.Block().Comment == "recover" {
+			continue
 		}
+		n++
+		c.teq("getter-contract", "list", vr.vals[0], want, p.instrPos(vr.at))
 	}
 	r.check(n == 1, "getter-contract", "getter-contract/"+getter+"/returns", c.pos(), "one normal return", fmt.Sprintf("%d returns", n))
 	// the loop runs while the iterator is valid and advances it
